@@ -170,21 +170,29 @@ def _timeslot_parts(e, env):
     return None
 
 
-def _atom_text(e, env):
-    """Canonical text for an lvalue-like expression (names resolved through substitutions)."""
+def _atom_text(e, env, _base=False):
+    """Canonical text for an lvalue-like expression (names resolved through substitutions; the object a re-bound name
+    currently stands for, e.g. after `a, b = b, a`, when it is the base of an attribute / item)."""
     if isinstance(e, ast.Name):
         s = env.subst.get(e.id)
         if isinstance(s, str):
             return s
         if isinstance(s, ast.AST):
-            return _atom_text(s, env)
+            return _atom_text(s, env, _base)
+        st = getattr(env, "state", None)
+        if _base and st is not None and e.id in st.vals:
+            f = st.vals[e.id]
+            if f.const == 0 and len(f.terms) == 1:
+                (a, c), = f.terms.items()
+                if c == 1 and a.isidentifier():
+                    return a
         return e.id
     if isinstance(e, ast.Attribute):
-        return f"{_atom_text(e.value, env)}.{e.attr}"
+        return f"{_atom_text(e.value, env, True)}.{e.attr}"
     if isinstance(e, ast.Subscript):
         if isinstance(e.slice, ast.Constant) and isinstance(e.slice.value, str) and e.slice.value in ("timestamp", "duration", "data", "id"):
-            return f"{_atom_text(e.value, env)}.{e.slice.value}"
-        return f"{_atom_text(e.value, env)}[{norm(e.slice)}]"
+            return f"{_atom_text(e.value, env, True)}.{e.slice.value}"
+        return f"{_atom_text(e.value, env, True)}[{norm(e.slice)}]"
     return norm(e)
 
 
@@ -394,19 +402,29 @@ def exec_block(stmts, env, state, on_other=None):
     """Propagate affine forms through assignments.  Handles `x = e`, `o.f = e`, tuple assignment
     `a, b = e1, e2` (simultaneous), `x += e`, `x -= e`.  Other statements go to on_other(stmt, state)
     (default: ignore pure expression statements / logging, raise NonAffine for anything else)."""
+    def _tgt(t):
+        old_ = getattr(env, "state", None)
+        env.state = state
+        try:
+            return _atom_text(t, env)
+        finally:
+            env.state = old_
+
     for st in stmts:
         if isinstance(st, ast.Assign) and len(st.targets) == 1:
             t = st.targets[0]
             if isinstance(t, (ast.Tuple, ast.List)) and isinstance(st.value, (ast.Tuple, ast.List)) and len(t.elts) == len(st.value.elts):
                 vals = [lin_in(v, env, state) for v in st.value.elts]
-                for tt, v in zip(t.elts, vals):
-                    state.vals[_atom_text(tt, env)] = v
+                keys = [_tgt(tt) for tt in t.elts]
+                for k_, v in zip(keys, vals):
+                    state.vals[k_] = v
             elif isinstance(t, (ast.Name, ast.Attribute, ast.Subscript)):
-                state.vals[_atom_text(t, env)] = lin_in(st.value, env, state)
+                v_ = lin_in(st.value, env, state)
+                state.vals[_tgt(t)] = v_
             else:
                 raise NonAffine("assignment target")
         elif isinstance(st, ast.AugAssign) and isinstance(st.op, (ast.Add, ast.Sub)):
-            k = _atom_text(st.target, env)
+            k = _tgt(st.target)
             cur = state.vals.get(k, Form.atom(k))
             v = lin_in(st.value, env, state)
             state.vals[k] = cur + v if isinstance(st.op, ast.Add) else cur - v
